@@ -267,7 +267,8 @@ def _cut(ip, node, st, lc, seq, n):
         names.add(idx_name)
     for label, g in (lc.ghost_init or {}).items():
         frame.vars[label] = ip.spec_value(g, st)
-        names.add(label)
+        if label in (lc.ghost_update or {}):
+            names.add(label)
 
     # 1. invariants on entry
     for label, src in lc.invariants:
